@@ -94,6 +94,7 @@ func checkC01(w *World, r *Recorder) propInfo {
 		r.Check(rep.OK, "C01-R3", fnKey(fn), pos, rep.Detail, "container walk: "+rep.Why)
 	}
 	ruleIsEmptyMeansNoEntries(w, r, "C01-R3")
+	ruleNullEntryIsNilTest(w, r, "C01-R3")
 	if f := root.Func("ValidateSwComponents"); f != nil {
 		rep := validatingWalk(w, f, func(s ssa.Value) bool { return s == ssa.Value(f.Params[0]) }, false)
 		pos := w.FnPos(f)
